@@ -115,7 +115,16 @@ fn insert_values<Store: StorageData>(
                     Err(e)
                 }
             }
-            QueryId::Alias(alias) => insert_values_new(db, Some(alias), values, result),
+            QueryId::Alias(alias) => {
+                if alias.is_empty() {
+                    return Err(DbError::query(
+                        DbErrorType::NotAllowed,
+                        "Empty alias is not allowed",
+                    ));
+                }
+
+                insert_values_new(db, Some(alias), values, result)
+            }
         },
     }
 }
